@@ -21,6 +21,7 @@ CONSTANTS
   PairFirst = {1, 1048560}
   TypedFlush = {FALSE}
   Interleave = FALSE
+  MaxAbandon = 0
   Bug = {}
 INVARIANTS TypeOK DeliveredIsPrefixOfSent AcceptedNeverRejected TypedLayerTotal NoSpuriousMessage WireOK DoneDeliversAll
 CHECK_DEADLOCK FALSE
